@@ -34,6 +34,7 @@ pub fn run(ctx: &Ctx) {
     for sp in contexts(|m| t.pick(m.min(5), m), false) {
         run.space(&sp, &all, false);
     }
+    run.space(&decl_case(t.pick(4, 5)), &all, false);
     run.space(&ws_class(), &all, false);
     run.space(&mid_bom(t.pick(3, 4)), &all, false);
     // size thresholds (long names, texts, blank runs, bodies, nesting, counts) under every configuration
